@@ -17,6 +17,40 @@ SHOWDEACT_OID = "1.2.840.113556.1.4.2065"
 KNOWN_OIDS = (PAGED_OID, SHOWDEL_OID, SHOWDEACT_OID)
 
 
+# RFC 4511 numbering of the enumerations, by the library's member names (an independent table: a member whose number
+# drifts from the RFC is seen even if the library's encoder and decoder agree with each other)
+SCOPE_NAMES = {0: "BASE", 1: "ONE_LEVEL", 2: "SUBTREE"}
+DEREF_NAMES = {0: "NEVER", 1: "IN_SEARCHING", 2: "FINDING_BASE_OBJ", 3: "ALWAYS"}
+RESULT_NAMES = {0: "SUCCESS", 1: "OPERATIONS_ERROR", 2: "PROTOCOL_ERROR", 3: "TIME_LIMIT_EXCEEDED", 4: "SIZE_LIMIT_EXCEEDED", 5: "COMPARE_FALSE", 6: "COMPARE_TRUE",
+                7: "AUTH_METHOD_NOT_SUPPORTED", 8: "STRONG_AUTH_REQUIRED", 10: "REFERRAL", 11: "ADMIN_LIMIT_EXCEEDED", 12: "UNAVAILABLE_CRITICAL_EXTENSION",
+                13: "CONFIDENTIALITY_REQUIRED", 14: "SASL_BIND_IN_PROGRESS", 16: "NO_SUCH_ATTRIBUTE", 17: "UNDEFINED_ATTRIBUTE_TYPE", 18: "INAPPROPRIATE_MATCHING",
+                19: "CONSTRAINT_VIOLATION", 20: "ATTRIBUTE_OR_VALUE_EXISTS", 21: "INVALID_ATTRIBUTE_SYNTAX", 32: "NO_SUCH_OBJECT", 33: "ALIAS_PROBLEM",
+                34: "INVALID_DN_SYNTAX", 36: "ALIAS_DEREFERENCING_PROBLEM", 48: "INAPPROPRIATE_AUTHENTICATION", 49: "INVALID_CREDENTIALS",
+                50: "INSUFFICIENT_ACCESS_RIGHTS", 51: "BUSY", 52: "UNAVAILABLE", 53: "UNWILLING_TO_PERFORM", 54: "LOOP_DETECT", 64: "NAMING_VIOLATION",
+                65: "OBJECT_CLASS_VIOLATION", 66: "NOT_ALLOWED_ON_NON_LEAF", 67: "NOT_ALLOWED_ON_RDN", 68: "ENTRY_ALREADY_EXISTS", 69: "OBJECT_CLASS_MODS_PROHIBITED",
+                71: "AFFECTS_MULTIPLE_DSAS", 80: "OTHER"}
+
+
+_REV: dict = {}
+
+
+def enum_by_number(cls, names, number):
+    """The member an application would write by name for this RFC number (falls back to the by-value lookup for numbers the
+    RFC table does not name, or names a refactor may have changed)."""
+    nm = names.get(number)
+    mem = getattr(cls, nm, None) if nm else None
+    return mem if mem is not None else cls(number)
+
+
+def number_of(member, names):
+    """RFC number of a decoded member: by its name when the RFC table knows the name, else its value."""
+    rev = _REV.get(id(names))
+    if rev is None:
+        rev = _REV[id(names)] = {v: k for k, v in names.items()}
+    k = rev.get(getattr(member, "name", None))
+    return member.value if k is None else k
+
+
 # ------------------------------------------------------------------ abstract(obj)
 
 def a_control(c) -> tuple:
@@ -50,7 +84,7 @@ def a_filter(f) -> tuple:
 
 
 def a_result(r) -> tuple:
-    return (r.result_code.value, r.matched_dn, r.diagnostics_message, None if r.referrals is None else tuple(r.referrals))
+    return (number_of(r.result_code, RESULT_NAMES), r.matched_dn, r.diagnostics_message, None if r.referrals is None else tuple(r.referrals))
 
 
 def a_auth(a) -> tuple:
@@ -73,8 +107,8 @@ def abstract(m) -> tuple:
     elif isinstance(m, sl.SearchRequest):
         body = (
             m.base_object,
-            m.scope.value,
-            m.deref_aliases.value,
+            number_of(m.scope, SCOPE_NAMES),
+            number_of(m.deref_aliases, DEREF_NAMES),
             m.size_limit,
             m.time_limit,
             m.types_only,
@@ -151,7 +185,7 @@ def b_filter(f):
 
 def b_result(r):
     code, matched, diag, refs = r
-    return sl.LDAPResult(sl.LDAPResultCode(code), matched, diag, None if refs is None else list(refs))
+    return sl.LDAPResult(enum_by_number(sl.LDAPResultCode, RESULT_NAMES, code), matched, diag, None if refs is None else list(refs))
 
 
 def b_auth(a):
@@ -172,8 +206,8 @@ def build(a):
     if op == "SearchRequest":
         return sl.SearchRequest(
             base_object=body[0],
-            scope=sl.SearchScope(body[1]),
-            deref_aliases=sl.DereferencingPolicy(body[2]),
+            scope=enum_by_number(sl.SearchScope, SCOPE_NAMES, body[1]),
+            deref_aliases=enum_by_number(sl.DereferencingPolicy, DEREF_NAMES, body[2]),
             size_limit=body[3],
             time_limit=body[4],
             types_only=body[5],
